@@ -5,7 +5,8 @@ closed loop "sleep as long as told, then issue one hit" of lib/attack.go in virt
 Integers are unbounded `Int` with an explicit `wrapU64`/`wrapS64` exactly where Go wraps;
 Go's integer `/` is `Int.tdiv`, and every integer division goes through `sdiv`/`udiv`,
 which answer `none` on a zero divisor so that a Go divide-by-zero panic is a visible
-outcome (`PaceOut.panic`).  The code is modelled as it is today, including
+outcome (`PaceOut.panic`).  `constPace` is the repaired constant pacer (exact 128-bit
+deadline); `constPaceOld` keeps the code as it was, including
 * `Freq > Per` ⇒ `interval = 0` ⇒ `math.MaxInt64/interval` panics,
 * the overflow guard `MaxInt64/interval < hits` being off by one,
 * the truncated `interval = Per/Freq`.
@@ -31,7 +32,41 @@ def sdiv (a b : Int) : Option Int := if b = 0 then none else some (wrapS64 (a.td
 /-- Go unsigned 64-bit division (operands already in `[0, 2^64)`): panics on zero. -/
 def udiv (a b : Int) : Option Int := if b = 0 then none else some (a.tdiv b)
 
-/-! ## ConstantPacer -/
+/-! ## ConstantPacer (repaired code, /repo commit a5c2a38) -/
+
+/-- `bits.Div64(hi, lo, y)`: quotient of the 128-bit value `hi·2^64 + lo` by `y`; panics when
+`y == 0` (division by zero) or `y <= hi` (quotient overflow). -/
+def div64 (hi lo y : Int) : Option Int :=
+  if y = 0 ∨ y ≤ hi then none else some ((hi * (two64 : Int) + lo).tdiv y)
+
+/-- `ConstantPacer{Freq: freq, Per: per}.Pace(elapsed, hits)`, lib/pacer.go:51-88: the next hit is
+due at `ceil((hits+1)·Per/Freq)`, computed in 128 bits (`bits.Mul64`, `bits.Add64`, `bits.Div64`);
+stop when the deadline does not fit `int64` or `hits` is `MaxUint64`. -/
+def constPace (freq per elapsed : Int) (hits : Nat) : PaceOut :=
+  if per = 0 ∨ freq = 0 then .wait 0
+  else if per < 0 ∨ freq < 0 then .stop
+  else if (hits : Int) = (two64 : Int) - 1 then .stop          -- hits == math.MaxUint64
+  else
+    let prod := wrapU64 ((hits : Int) + 1) * wrapU64 per        -- bits.Mul64: full 128-bit product
+    let hi0 := prod / (two64 : Int)
+    let lo0 := prod % (two64 : Int)
+    let sum := lo0 + wrapU64 (wrapU64 freq - 1)                 -- bits.Add64(lo, uint64(Freq)-1, 0)
+    let lo := sum % (two64 : Int)
+    let carry := sum / (two64 : Int)
+    let hi := wrapU64 (hi0 + carry)                             -- hi += carry
+    if wrapU64 freq ≤ hi then .stop
+    else
+      match div64 hi lo (wrapU64 freq) with
+      | none => .panic
+      | some due =>
+        if maxInt64 < due then .stop
+        else if wrapS64 due ≤ elapsed then .wait 0              -- elapsed >= time.Duration(due)
+        else
+          let e := if elapsed < 0 then 0 else elapsed
+          .wait (wrapS64 (wrapS64 due - e))
+
+/-! ## ConstantPacer as it was before the repair (kept so that the record of what was wrong
+stays machine-checked: `Props/C01.lean`, `*_old_counterexample`) -/
 
 /-- `expectedHits := uint64(cp.Freq) * uint64(elapsed/cp.Per)` (for `Per ≠ 0`). -/
 def constExpected (freq per elapsed : Int) : Option Int :=
@@ -45,8 +80,9 @@ def constInterval (freq per : Int) : Option Int :=
   | none => none
   | some q => some (wrapU64 q)
 
-/-- `ConstantPacer{Freq: freq, Per: per}.Pace(elapsed, hits)`, lib/pacer.go:51-72. -/
-def constPace (freq per elapsed : Int) (hits : Nat) : PaceOut :=
+/-- The unrepaired `ConstantPacer.Pace` (commit before a5c2a38): truncated interval
+`Per/Freq` (0 when `Freq > Per` ⇒ `math.MaxInt64/interval` panics), overflow guard off by one. -/
+def constPaceOld (freq per elapsed : Int) (hits : Nat) : PaceOut :=
   if per = 0 ∨ freq = 0 then .wait 0
   else if per < 0 ∨ freq < 0 then .stop
   else
